@@ -248,8 +248,12 @@ def single_edits(schema, rng, per_rule_cap=6):
                     lambda t_, s: setattr(t_, "const", "y" * max(1, int(t_.length))) if int(t_.length) >= 1 else None)
             continue
         if t.is_array():
-            if t.name not in ("varData",):
-                add("multi-byte-array", "array-of-uint16", True, "type", ti, lambda t_, s: setattr(t_, "prim", "uint16"))
+            # arrays of every multi-byte primitive, including the zero-length `varData` element of <data> headers
+            mb = ["uint16", "int16", "uint32", "int64", "float", "double"][ti % 6]
+            add("multi-byte-array", ("varData-of-" if t.name == "varData" else "array-of-") + mb, True, "type", ti,
+                lambda t_, s, mb=mb: setattr(t_, "prim", mb))
+            add("multi-byte-array", ("varData-of-" if t.name == "varData" else "array-of-") + "uint16", True, "type", ti,
+                lambda t_, s: setattr(t_, "prim", "uint16"))
             continue
         if t.name in ("blockLength", "numInGroup", "templateId", "schemaId", "version", "length", "numGroups", "numVarDataFields"):
             continue
